@@ -6,6 +6,9 @@ ALL = ["C%02d" % i for i in range(1, 21)]
 
 # property -> (technique, decided clauses (short), not decided / assumptions)
 CLAIMED = {
+ "C17": ("method-set check, value identity of the encrypted envelope, dominance of decrypt/refusal edges, constant-key and string-guard matching, path search (go/ssa)",
+         "C17.1 nine stages implemented, push/reply variants delegate; C17.2 on every OK path after marshalling the body is replaced by a fresh Encrypt{version, AESEncrypt(key, marshalled body)}; C17.3 accept decision per secure/plain edge and its use on the write side; C17.4 decrypt only on version match with the plugin's key, refusals are fresh non-OK statuses, restore+decode only after; C17.5 unmarked messages untouched; C17.6 pre-write stage once per outgoing message",
+         "confidentiality of the bytes, AES mode and key handling in goutil; a secure-marked message with an EMPTY cipher version is accepted without decryption (crafted input, outside the key-pair quantification; noted in DESIGN); bytes on the wire"),
  "C19": ("must-pass/exactly-once path search, value identity of the forwarded argument and returned body, closure-shape checks, constant-range check, dominance (go/ssa)",
          "C19.1 forwarded exactly once per path; C19.2 raw body in, backend body out through invocation-local storage, unknown routes bind raw bytes; C19.3 metadata forwarded and copied back (nil-guarded); C19.4 real IP added iff absent; C19.5 the whole 1xx class becomes a NEW 502 status (with C15.1: never mutated in place); C19.6 installed as unknown handlers iff configured; C19.7 no pooled object outlives its Put",
          "equality of proxied and direct outcomes as values (codec/body bytes through two hops); the user-supplied forwarder"),
@@ -13,7 +16,7 @@ CLAIMED = {
          "C14.1 any field accessed atomically somewhere is accessed atomically everywhere (all shipped structs; frozen set present); C14.2 guarded-field table: accesses under the declared mutex (promoted net.Conn methods of socket: known finding F11); C14.3 nothing written to a callCmd after completion is signalled; C14.4 thrift counters under their direction's lock; C14.5 WaitGroup Add/Wait share a mutex (known finding F13)",
          "data races on state outside the guard table; real happens-before over schedules (static race freedom is undecidable here: what is decided is the locking/atomic discipline the code itself declares); third-party code"),
  "C18": ("path-sum enumeration of the limiter counters, atomic access sets, data-dependence of the release on per-session evidence, return-shape analysis (go/ssa)",
-         "C18.1 limiter counters atomic-only; C18.2 take/release path sums and the admission comparison; C18.3 a slot is released only in PostDisconnect, only with admission evidence for that session, recorded only on the admit edge; C18.4 refusal edges return fresh non-OK statuses, qps take admits only with a token",
+         "C18.1 limiter counters atomic-only; C18.2 take/release path sums and the admission comparison; C18.3 a slot is released only in PostDisconnect, only with admission evidence for that session, recorded only on the admit edge; C18.4 refusal edges return fresh non-OK statuses, qps take admits only with a token; C18.5 limiters created only when none exists (updates keep the counters); C18.6 ticker swap order",
          "the rate bound over time (token refill arithmetic against wall-clock intervals); newQPSLimiter divides by zero for QPSInterval > 1s (crash at configuration time, outside the rules); limit updates racing takes beyond the locking discipline (C14.2)"),
  "C05": ("per-protocol reach-set tables (writer/reader agreement), counter-direction sibling check, call classification of connection reads, buffer-alias value flow (go/ssa)",
          "C05.1 all nine Proto implementations cover the full field table in Pack and Unpack (frozen exemptions; websocket status = known finding F4); C05.2 thrift size counters per direction; C05.3 one connection write per frame; C05.5 only full reads on receive paths; C05.6 service method / body never alias the pooled read buffer",
